@@ -1,0 +1,17 @@
+//go:build verif
+
+// Contracts for the creator, checked by /verif/kbv (build tag "verif"). Comments only.
+
+package creator
+
+//@ func Creator.Create(ctx, key, value, revision) (err)
+//@   assumed
+//@   requires [no-open-batch] !batch_open
+//@   modifies ghost.bw_n ghost.bw_kind ghost.bw_key ghost.bw_val ghost.bw_old ghost.bw_ttl ghost.commits ghost.last_batch ghost.last_err ghost.batch_open ghost.floor ghost.floor_set
+//@   ensures [closed] !batch_open
+
+//@ func Creator.CreateWithTTL(ctx, key, value, revision, ttl) (err)
+//@   assumed
+//@   requires [no-open-batch] !batch_open
+//@   modifies ghost.bw_n ghost.bw_kind ghost.bw_key ghost.bw_val ghost.bw_old ghost.bw_ttl ghost.commits ghost.last_batch ghost.last_err ghost.batch_open ghost.floor ghost.floor_set
+//@   ensures [closed] !batch_open
